@@ -383,6 +383,18 @@ class Gen:
                         raise GenError(f"{key}: lost anchor /{anc['after_re']}/")
                     anc = dict(anc, after=ms[anc.get("nth", 0)].group(0))
                     pos = ms[anc.get("nth", 0)].start()
+                elif anc.get("nth", 0) < 0:
+                    # counted from the end (-1: last occurrence): robust against the same statement being added earlier in the function
+                    occ, sp = [], 0
+                    while True:
+                        q = body_txt.find(anc["after"], sp)
+                        if q < 0:
+                            break
+                        occ.append(q)
+                        sp = q + 1
+                    if len(occ) < -anc["nth"]:
+                        raise GenError(f"{key}: lost anchor {anc['after']!r}")
+                    pos = occ[anc["nth"]]
                 else:
                   for _ in range(anc.get("nth", 0) + 1):
                     pos = body_txt.find(anc["after"], startp)
